@@ -143,6 +143,12 @@ FILTER.params["keep"] = KeepList()
 # ---- project ---------------------------------------------------------------------------------------------------------------
 def _emit_c(I, self_obj, pos, kw, st):
     d = st.resolve(pos[0])
+    # the contract's `emit(doc)` is the plain canonical emission: a call that passes format options is a different
+    # text (the line-based option pass knows nothing about literal zones) and must not satisfy a lossless view's post
+    opts = pos[1] if len(pos) > 1 else kw.get("format_options")
+    if opts is not None:
+        yield st, z3.String(f"emit({d.name}, <format options>)")
+        return
     yield st, z3.String(f"emit({d.name})")
 
 
